@@ -22,6 +22,7 @@ type C19Decl struct {
 	Kind   string `json:"kind"`   // local | global | gfunc | lfunc | member-func | member-method | member-assign-func | member-var | ctor-field
 	Off    int    `json:"off"`    // byte offset of the declaring identifier
 	Global bool   `json:"global"` // findable through workspace/symbol by exact name
+	WSOnly bool   `json:"wsonly"` // nested declaration: only the workspace/symbol half applies
 }
 
 type C19Case struct {
@@ -55,7 +56,22 @@ func genC19(t *rapid.T) C19Case {
 		}
 		n := rapid.IntRange(1, 8).Draw(t, "nitems")
 		for i := 0; i < n; i++ {
-			switch rapid.IntRange(0, 7).Draw(t, "item") {
+			switch rapid.IntRange(0, 8).Draw(t, "item") {
+			case 8:
+				// a local function declared below the main chunk's top level: in a do / if / for block, in
+				// the body of a top-level local function, in the body of a global function, in a method
+				nm := name("Nfun")
+				wrap := rapid.SampledFrom([][2]string{{"do\n  ", "end\n"}, {"if true then\n  ", "end\n"}, {"for i = 1, 2 do\n  ", "end\n"},
+					{"local function " + name("Outer") + "()\n  ", "end\n"}, {"function " + name("GOuter") + "()\n  ", "end\n"}}).Draw(t, "wrap")
+				if gate("c19-lfunc-in-global-func") && strings.HasPrefix(wrap[0], "function ") {
+					// known finding C19-F2
+					excluded()
+					wrap = [2]string{"do\n  ", "end\n"}
+				}
+				b.WriteString(wrap[0])
+				c.Decls = append(c.Decls, C19Decl{File: fi, Name: nm, Kind: "nested-lfunc-in-" + strings.Fields(wrap[0])[0], Off: b.Len() + len("local function "), Global: true, WSOnly: true})
+				b.WriteString("local function " + nm + "(" + params() + ")" + body() + "end\n")
+				b.WriteString(wrap[1])
 			case 0:
 				add("local", "", name("Loc"), false, "local ", " = "+lit()+"\n")
 			case 1:
@@ -63,7 +79,7 @@ func genC19(t *rapid.T) C19Case {
 			case 2:
 				add("gfunc", "", name("Gfun"), true, "function ", "("+params()+")"+body()+"end\n")
 			case 3:
-				add("lfunc", "", name("Lfun"), false, "local function ", "("+params()+")"+body()+"end\n")
+				add("lfunc", "", name("Lfun"), true, "local function ", "("+params()+")"+body()+"end\n")
 			case 4, 5:
 				// a table with members
 				global := rapid.Bool().Draw(t, "globalTable")
@@ -166,7 +182,9 @@ func checkC19(c C19Case, env *Env) *Violation {
 	for i, d := range c.Decls {
 		f := c.WS.Files[d.File]
 		id := spanLoc(f.Path, f.Text, reflua.Span{Off: d.Off, End: d.Off + len(d.Name)})
-		if d.Kind == "ctor-field" {
+		if d.WSOnly {
+			// nested declarations: the outline half speaks of top-level locals, globals and functions
+		} else if d.Kind == "ctor-field" {
 			// fields written inside a table constructor: the property lists "table members such as t.f
 			// and t:m"; constructor fields are don't-care
 			env.Stats.mu.Lock()
